@@ -210,6 +210,29 @@ def numeric_archive(ctx_id):
     ar.add(**items)
     return ar, list(items), items
 
+def zero_archive(ctx_id):
+    """numbers with ZERO uncertainty in some stored field (not constants, which are known finding C09-2): elementary complex
+    numbers with one zero component (either one, 2- and 4-element uncertainty, with and without dof), real and complex
+    intermediate results with u = 0.  Inputs have infinite dof so that no dof is nan (that case is known finding C09-5)."""
+    from GTC import core, archive as garchive
+    new_context(ctx_id)
+    x = core.ureal(1.5, 0.25, label='x'); y0 = core.ureal(0.0, 0.5); y1 = core.ureal(0.0, 0.125, independent=False)
+    items = {'x': x, 'y0': y0}
+    items['z_re0'] = core.ucomplex(1 + 2j, (0, 0.5), label='z_re0')
+    items['z_im0'] = core.ucomplex(-3 + 0.5j, (0.25, 0.0), 7)
+    items['z_cov'] = core.ucomplex(2j, (0.25, 0, 0, 0))
+    items['z_cov2'] = core.ucomplex(1.0, (0.0, 0.0, 0.0, 4.0), 3.5)
+    items['r_diff'] = core.result(x - x, label='x-x')
+    items['r_times0'] = core.result(x * 0)
+    items['r_at0'] = core.result(y0 * y1)
+    items['r_sum'] = core.result(items['r_diff'] + x)            # an influence with zero uncertainty
+    items['w_diff'] = core.result(items['z_re0'] - items['z_re0'])
+    items['w_mixed'] = core.result(items['z_im0'] * x)
+    items['w_im0'] = core.result(items['z_cov'] + 1)
+    ar = garchive.Archive()
+    ar.add(**items)
+    return ar, list(items), items
+
 def numeric32_archive(ctx_id):
     """results computed with numpy.float32 constants (known finding C09-9): an exact factor and inexact ones"""
     import numpy as np
@@ -255,30 +278,32 @@ def build_archive(rng, ctx_id, labels=LABELS):
     for _ in range(rng.choice([0, 1, 1, 2])):
         kind = rng.choice(['indep', 'corr', 'df'])
         z = complex(rand_val(rng), rand_val(rng))
+        zero_one = lambda pair: pair if rng.random() < 0.7 else ((0, pair[1]) if rng.random() < 0.5 else (pair[0], 0.0))
         if kind == 'indep':
-            c = core.ucomplex(z, (rand_u(rng), rand_u(rng)), label=lab())
+            c = core.ucomplex(z, zero_one((rand_u(rng), rand_u(rng))), label=lab())
         elif kind == 'corr':
             u1, u2 = rand_u(rng), rand_u(rng); r = round(rng.uniform(-0.9, 0.9), 2)
             c = core.ucomplex(z, (u1 * u1, r * u1 * u2, r * u1 * u2, u2 * u2), label=lab())
         else:
             import numpy as np
-            c = core.ucomplex(np.complex128(z) if rng.random() < 0.5 else z, (num_as(rng, rand_u(rng)), num_as(rng, rand_u(rng))),
+            c = core.ucomplex(np.complex128(z) if rng.random() < 0.5 else z, zero_one((num_as(rng, rand_u(rng)), num_as(rng, rand_u(rng)))),
                               num_as(rng, rng.choice([2, 9.5])), label=lab())
         cplx.append(c); desc['ops'].append('ucomplex-' + kind)
     inter = []
     pool = list(reals)
     for _ in range(rng.choice([0, 1, 2, 3])):
         a, b = rng.choice(pool), rng.choice(pool)
-        op = rng.choice(['add', 'mul', 'sub', 'lin', 'cmul', 'cdiv', 'rcmul', 'clin', 'cmul'])
+        op = rng.choice(['add', 'mul', 'sub', 'lin', 'cmul', 'cdiv', 'rcmul', 'clin', 'cmul', 'zero', 'times0'])
         k = rand_const(rng)
         y = {'add': lambda: a + b, 'mul': lambda: a * b, 'sub': lambda: a - 2.5 * b, 'lin': lambda: 3 * a + 0.25,
+             'zero': lambda: a - a, 'times0': lambda: b * 0 + 2.5,
              'cmul': lambda: a * k, 'cdiv': lambda: a / k, 'rcmul': lambda: k * a - b, 'clin': lambda: (a + k) * k}[op]()
         if op in ('cmul', 'cdiv', 'rcmul', 'clin'): op += ':' + type(k).__name__
         y = core.result(y, label=lab())
         inter.append(y); pool.append(y); desc['ops'].append('result-' + op)
     cinter = []
     if cplx and rng.random() < 0.6:
-        w = cplx[0] * rng.choice(pool) + (cplx[-1] if rng.random() < 0.5 else 1.5)
+        w = (cplx[0] - cplx[0]) if rng.random() < 0.2 else cplx[0] * rng.choice(pool) + (cplx[-1] if rng.random() < 0.5 else 1.5)
         cinter.append(core.result(w, label=lab())); desc['ops'].append('result-complex')
     ar = garchive.Archive()
     used = set(); items = {}
